@@ -48,6 +48,7 @@ def run(ck, fb):
     r04j(ck, fb)
     r04k(ck, fb)
     r04l(ck, fb)
+    r04m(ck, fb)
 
 
 def r04a(ck, fb):
@@ -449,3 +450,21 @@ def r04l(ck, fb, R='R04l'):
                'the start-up scan runs past a whole index interval without writing the slot for it: 128 records written, kill before the slot of '
                'record 128 -> reopen (128 entries, looks fine), 128 more appends, clean restart: end index 128 instead of 256',
                'scan by interval + index write')
+
+
+def r04m(ck, fb, R='R04m'):
+    ck.rule(R, 'a truncation forgets the index slots before it cuts the data: in LogInnerManager::strip_log_to no write to the index area (erase of the '
+               'popped slots) is reachable after a data_file.set_len. The recovery in init trusts every slot it finds and rebuilds missing ones by '
+               'scanning (R04l); a kill between "data cut" and "slots erased" leaves a slot that points behind the end of the data: the reopened log '
+               'reports an end index that is neither the old nor the new one (300 entries, cut at 200: end 256, entries 200..255 unreadable)')
+    b = ck.main(LIM + 'strip_log_to', R)
+    if not b:
+        return
+    cuts = [s for s in b.calls(r'fs::File::set_len$') if util.recv_fields(b, s)[-1:] == ['data_file']]
+    iw = [s for s in b.calls(r'AsyncWriteExt::write_all$') if util.recv_fields(b, s)[-1:] == ['index_file']]
+    ck.floor(R, 'data_file.set_len in strip_log_to', len(cuts), 1)
+    ck.floor(R, 'index_file.write_all in strip_log_to', len(iw), 1)
+    late = [w for w in iw if any(w.bb in cfg.reach_from(b, [c.bb]) for c in cuts)]
+    ck.require(not late, R, 'strip_log_to:index-erase-before-data-cut', late[0].where() if late else b.where(),
+               'the popped index slots are erased after the data file was cut: a kill in between leaves slots that point behind the end of the data, '
+               'which init trusts', 'index erased first')
